@@ -845,6 +845,13 @@ let rec fpow k x = function
 | O -> k.o1
 | S m -> k.omul x (fpow k x m)
 
+(** val fzpow : ops -> car -> z -> car **)
+
+let fzpow k x = function
+| Z0 -> k.o1
+| Zpos p -> fpow k x (Coq_Pos.to_nat p)
+| Zneg p -> k.oinv (fpow k x (Coq_Pos.to_nat p))
+
 (** val fsum : ops -> car list -> car **)
 
 let rec fsum k = function
@@ -871,6 +878,11 @@ let c0 k =
 
 let c1 k =
   { re = k.o1; im = k.o0 }
+
+(** val ci : ops -> car cx **)
+
+let ci k =
+  { re = k.o0; im = k.o1 }
 
 (** val cadd : ops -> car cx -> car cx -> car cx **)
 
@@ -1451,6 +1463,281 @@ let random_sine_raises d offset_zero std_one max_one =
 let stack_sub_raises sub_len lens =
   (||) (negb (all_eqb lens)) (Z.gtb sub_len (hd Z0 lens))
 
+(** val map2 : ('a1 -> 'a2 -> 'a3) -> 'a1 list -> 'a2 list -> 'a3 list **)
+
+let rec map2 f l1 l2 =
+  match l1 with
+  | [] -> []
+  | a :: r1 -> (match l2 with
+                | [] -> []
+                | b :: r2 -> (f a b) :: (map2 f r1 r2))
+
+(** val imap_from : nat -> (nat -> 'a1 -> 'a2) -> 'a1 list -> 'a2 list **)
+
+let rec imap_from s f = function
+| [] -> []
+| a :: r -> (f s a) :: (imap_from (S s) f r)
+
+(** val imap : (nat -> 'a1 -> 'a2) -> 'a1 list -> 'a2 list **)
+
+let imap f l =
+  imap_from O f l
+
+(** val dop : ops -> car -> car -> z list -> car list **)
+
+let dop k ii s k0 =
+  map (fun kc -> k.omul ii (k.omul s (fz k kc))) k0
+
+(** val laplace_sym : ops -> nat -> car list -> car **)
+
+let laplace_sym k order d =
+  match order with
+  | O -> k.o1
+  | S _ -> fsum k (map (fun x -> fpow k x order) d)
+
+(** val gip_sym : ops -> car list -> nat -> car list -> car **)
+
+let gip_sym k v order d =
+  fsum k (map2 (fun vc dc -> k.omul vc (fpow k dc order)) v d)
+
+(** val poly_sym : ops -> car list -> car list -> car **)
+
+let poly_sym k a d =
+  fsum k
+    (imap (fun j aj -> fsum k (map (fun x -> k.omul aj (fpow k x j)) d)) a)
+
+(** val sym_advection : ops -> car list -> car list -> car **)
+
+let sym_advection k v d =
+  k.oopp (gip_sym k v (S O) d)
+
+(** val quad_form : ops -> car list list -> car list -> car **)
+
+let quad_form k a d =
+  fsum k
+    (map2 (fun row di ->
+      fsum k (map2 (fun aij dj -> k.omul aij (k.omul di dj)) row d)) a d)
+
+(** val sym_diffusion : ops -> car list list -> car list -> car **)
+
+let sym_diffusion =
+  quad_form
+
+(** val sym_advection_diffusion :
+    ops -> car list -> car list list -> car list -> car **)
+
+let sym_advection_diffusion k v a d =
+  k.oadd (k.oopp (gip_sym k v (S O) d)) (quad_form k a d)
+
+(** val sym_dispersion : ops -> bool -> car list -> car list -> car **)
+
+let sym_dispersion k advect_on_diffusion xi d =
+  if advect_on_diffusion
+  then k.omul (gip_sym k xi (S O) d) (laplace_sym k (S (S O)) d)
+  else gip_sym k xi (S (S (S O))) d
+
+(** val sym_hyper_diffusion : ops -> bool -> car -> car list -> car **)
+
+let sym_hyper_diffusion k diffuse_on_diffuse mu d =
+  if diffuse_on_diffuse
+  then k.omul (k.omul (k.oopp mu) (laplace_sym k (S (S O)) d))
+         (laplace_sym k (S (S O)) d)
+  else k.omul (k.oopp mu) (laplace_sym k (S (S (S (S O)))) d)
+
+(** val sym_burgers : ops -> car -> car list -> car **)
+
+let sym_burgers k nu d =
+  k.omul nu (laplace_sym k (S (S O)) d)
+
+(** val ones : ops -> car list -> car list **)
+
+let ones k d =
+  map (fun _ -> k.o1) d
+
+(** val sym_kdv :
+    ops -> bool -> bool -> car -> car -> car -> car list -> car **)
+
+let sym_kdv k advect_over_diffuse diffuse_over_diffuse nu xi mu d =
+  let lap = laplace_sym k (S (S O)) d in
+  let vel = map (fun o -> k.omul xi o) (ones k d) in
+  k.oadd
+    (k.oadd (k.omul nu lap)
+      (if advect_over_diffuse
+       then k.omul (k.oopp (gip_sym k vel (S O) d)) lap
+       else k.oopp (gip_sym k vel (S (S (S O))) d)))
+    (if diffuse_over_diffuse
+     then k.omul (k.omul (k.oopp mu) lap) lap
+     else k.omul (k.oopp mu) (laplace_sym k (S (S (S (S O)))) d))
+
+(** val sym_ks : ops -> car -> car -> car list -> car **)
+
+let sym_ks k s2 s4 d =
+  k.osub (k.omul (k.oopp s2) (laplace_sym k (S (S O)) d))
+    (k.omul s4 (laplace_sym k (S (S (S (S O)))) d))
+
+(** val sym_navier_stokes : ops -> car -> car -> car list -> car **)
+
+let sym_navier_stokes k nu drag d =
+  k.oadd (k.omul nu (laplace_sym k (S (S O)) d))
+    (k.omul drag (laplace_sym k O d))
+
+(** val sym_allen_cahn : ops -> car -> car -> car list -> car **)
+
+let sym_allen_cahn k nu c2 d =
+  k.oadd (k.omul nu (laplace_sym k (S (S O)) d)) c2
+
+(** val sym_fisher : ops -> car -> car -> car list -> car **)
+
+let sym_fisher k nu r d =
+  k.oadd (k.omul nu (laplace_sym k (S (S O)) d)) r
+
+(** val sym_cahn_hilliard : ops -> car -> car -> car -> car list -> car **)
+
+let sym_cahn_hilliard k nu gamma c2 d =
+  k.omul (k.omul nu (laplace_sym k (S (S O)) d))
+    (k.osub c2 (k.omul gamma (laplace_sym k (S (S O)) d)))
+
+(** val sym_gray_scott : ops -> car -> car -> nat -> car list -> car **)
+
+let sym_gray_scott k nu1 nu2 channel d =
+  k.omul (match channel with
+          | O -> nu1
+          | S _ -> nu2) (laplace_sym k (S (S O)) d)
+
+(** val sym_swift_hohenberg : ops -> car -> car -> car list -> car **)
+
+let sym_swift_hohenberg k r kc d =
+  k.osub r (fpow k (k.oadd kc (laplace_sym k (S (S O)) d)) (S (S O)))
+
+(** val set0 : ops -> car list -> car list -> car list **)
+
+let set0 _ l xs =
+  match l with
+  | [] -> []
+  | _ :: r -> (match xs with
+               | [] -> []
+               | x :: _ -> x :: r)
+
+(** val normalize_coefficients : ops -> car -> car -> car list -> car list **)
+
+let normalize_coefficients k l dt coefficients =
+  imap (fun i c -> k.odiv (k.omul c dt) (fzpow k l (Z.of_nat i))) coefficients
+
+(** val denormalize_coefficients :
+    ops -> car -> car -> car list -> car list **)
+
+let denormalize_coefficients k l dt normalized_coefficients =
+  imap (fun i c_n -> k.omul (k.odiv c_n dt) (fzpow k l (Z.of_nat i)))
+    normalized_coefficients
+
+(** val normalize_convection_scale : ops -> car -> car -> car -> car **)
+
+let normalize_convection_scale k l dt convection_scale =
+  k.odiv (k.omul convection_scale dt) l
+
+(** val denormalize_convection_scale : ops -> car -> car -> car -> car **)
+
+let denormalize_convection_scale k l dt normalized_convection_scale =
+  k.omul (k.odiv normalized_convection_scale dt) l
+
+(** val normalize_gradient_norm_scale : ops -> car -> car -> car -> car **)
+
+let normalize_gradient_norm_scale k l dt gradient_norm_scale =
+  k.odiv (k.omul gradient_norm_scale dt) (fpow k l (S (S O)))
+
+(** val denormalize_gradient_norm_scale : ops -> car -> car -> car -> car **)
+
+let denormalize_gradient_norm_scale k l dt normalized_gradient_norm_scale =
+  k.omul (k.odiv normalized_gradient_norm_scale dt) (fpow k l (S (S O)))
+
+(** val normalize_polynomial_scales :
+    ops -> car -> car -> car list -> car list **)
+
+let normalize_polynomial_scales k _ dt polynomial_scales =
+  map (fun c -> k.omul c dt) polynomial_scales
+
+(** val denormalize_polynomial_scales :
+    ops -> car -> car -> car list -> car list **)
+
+let denormalize_polynomial_scales k _ dt normalized_polynomial_scales =
+  map (fun c_n -> k.odiv c_n dt) normalized_polynomial_scales
+
+(** val reduce_normalized_coefficients_to_difficulty :
+    ops -> car -> car -> car list -> car list **)
+
+let reduce_normalized_coefficients_to_difficulty k d n normalized_coefficients =
+  set0 k
+    (imap (fun j alpha ->
+      k.omul
+        (k.omul (k.omul alpha (fzpow k n (Z.of_nat j)))
+          (fzpow k (fz k (Zpos (XO XH))) (Z.sub (Z.of_nat j) (Zpos XH)))) d)
+      normalized_coefficients) normalized_coefficients
+
+(** val extract_normalized_coefficients_from_difficulty :
+    ops -> car -> car -> car list -> car list **)
+
+let extract_normalized_coefficients_from_difficulty k d n difficulty_coefficients =
+  imap (fun j gamma ->
+    k.odiv gamma
+      (k.omul
+        (k.omul (fzpow k n (Z.of_nat j))
+          (fzpow k (fz k (Zpos (XO XH))) (Z.sub (Z.of_nat j) (Zpos XH)))) d))
+    difficulty_coefficients
+
+(** val reduce_normalized_convection_scale_to_difficulty :
+    ops -> car -> car -> car -> car -> car **)
+
+let reduce_normalized_convection_scale_to_difficulty k d n m normalized_convection_scale =
+  k.omul (k.omul (k.omul normalized_convection_scale m) n) d
+
+(** val extract_normalized_convection_scale_from_difficulty :
+    ops -> car -> car -> car -> car -> car **)
+
+let extract_normalized_convection_scale_from_difficulty k d n m difficulty_convection_scale =
+  k.odiv difficulty_convection_scale (k.omul (k.omul m n) d)
+
+(** val reduce_normalized_gradient_norm_scale_to_difficulty :
+    ops -> car -> car -> car -> car -> car **)
+
+let reduce_normalized_gradient_norm_scale_to_difficulty k d n m normalized_gradient_norm_scale =
+  k.omul
+    (k.omul (k.omul normalized_gradient_norm_scale m) (fpow k n (S (S O)))) d
+
+(** val extract_normalized_gradient_norm_scale_from_difficulty :
+    ops -> car -> car -> car -> car -> car **)
+
+let extract_normalized_gradient_norm_scale_from_difficulty k d n m difficulty_gradient_norm_scale =
+  k.odiv difficulty_gradient_norm_scale
+    (k.omul (k.omul m (fpow k n (S (S O)))) d)
+
+(** val reduce_normalized_nonlinear_scales_to_difficulty :
+    ops -> car -> car -> car -> car list -> car list **)
+
+let reduce_normalized_nonlinear_scales_to_difficulty k d n m normalized_nonlinear_scales =
+  (nth O normalized_nonlinear_scales k.o0) :: ((reduce_normalized_convection_scale_to_difficulty
+                                                 k d n m
+                                                 (nth (S O)
+                                                   normalized_nonlinear_scales
+                                                   k.o0)) :: ((reduce_normalized_gradient_norm_scale_to_difficulty
+                                                                k d n m
+                                                                (nth (S (S
+                                                                  O))
+                                                                  normalized_nonlinear_scales
+                                                                  k.o0)) :: []))
+
+(** val extract_normalized_nonlinear_scales_from_difficulty :
+    ops -> car -> car -> car -> car list -> car list **)
+
+let extract_normalized_nonlinear_scales_from_difficulty k d n m nonlinear_difficulties =
+  (nth O nonlinear_difficulties k.o0) :: ((extract_normalized_convection_scale_from_difficulty
+                                            k d n m
+                                            (nth (S O) nonlinear_difficulties
+                                              k.o0)) :: ((extract_normalized_gradient_norm_scale_from_difficulty
+                                                           k d n m
+                                                           (nth (S (S O))
+                                                             nonlinear_difficulties
+                                                             k.o0)) :: []))
+
 (** val aff : z -> z -> z -> z **)
 
 let aff a b u =
@@ -1853,6 +2140,217 @@ let run_c20 sub0 a =
             (zs (skipn (S (S (S O))) a))))
    | _ -> [])
 
+(** val cr : q -> car **)
+
+let cr q0 =
+  Obj.magic { re = (qqc q0); im = (qqc { qnum = Z0; qden = XH }) }
+
+(** val crs : q list -> car list **)
+
+let crs l =
+  map cr l
+
+(** val ciQ : car **)
+
+let ciQ =
+  Obj.magic ci qcOps
+
+(** val run_sym : q list -> q list **)
+
+let run_sym a =
+  let cls = qz (getq a O) in
+  let d = qn (getq a (S O)) in
+  let s = cr (getq a (S (S O))) in
+  let k = map qz (firstn d (skipn (S (S (S O))) a)) in
+  let p = skipn (add (S (S (S O))) d) a in
+  let d0 = dop cQ ciQ s k in
+  let g = fun i -> cr (getq p i) in
+  let b = fun i -> qb (getq p i) in
+  let rows = fun l -> map crs (chunks d d l) in
+  put_cx
+    ((match cls with
+      | Zpos p0 ->
+        (match p0 with
+         | XI p1 ->
+           (match p1 with
+            | XI p2 ->
+              (match p2 with
+               | XI _ -> poly_sym cQ (crs p) d0
+               | XO p3 ->
+                 (match p3 with
+                  | XH -> sym_fisher cQ (g O) (g (S O)) d0
+                  | _ -> poly_sym cQ (crs p) d0)
+               | XH ->
+                 sym_kdv cQ (b O) (b (S O)) (g (S (S O))) (g (S (S (S O))))
+                   (g (S (S (S (S O))))) d0)
+            | XO p2 ->
+              (match p2 with
+               | XI p3 ->
+                 (match p3 with
+                  | XH ->
+                    sym_gray_scott cQ (g O) (g (S O)) (qn (getq p (S (S O))))
+                      d0
+                  | _ -> poly_sym cQ (crs p) d0)
+               | XO p3 ->
+                 (match p3 with
+                  | XH -> sym_navier_stokes cQ (g O) (g (S O)) d0
+                  | _ -> poly_sym cQ (crs p) d0)
+               | XH -> sym_hyper_diffusion cQ (b O) (g (S O)) d0)
+            | XH ->
+              sym_advection_diffusion cQ (crs (firstn d p))
+                (rows (skipn d p)) d0)
+         | XO p1 ->
+           (match p1 with
+            | XI p2 ->
+              (match p2 with
+               | XI p3 ->
+                 (match p3 with
+                  | XH -> sym_swift_hohenberg cQ (g O) (g (S O)) d0
+                  | _ -> poly_sym cQ (crs p) d0)
+               | XO p3 ->
+                 (match p3 with
+                  | XH -> sym_allen_cahn cQ (g O) (g (S O)) d0
+                  | _ -> poly_sym cQ (crs p) d0)
+               | XH -> sym_burgers cQ (g O) d0)
+            | XO p2 ->
+              (match p2 with
+               | XI p3 ->
+                 (match p3 with
+                  | XH ->
+                    sym_cahn_hilliard cQ (g O) (g (S O)) (g (S (S O))) d0
+                  | _ -> poly_sym cQ (crs p) d0)
+               | XO p3 ->
+                 (match p3 with
+                  | XH -> sym_ks cQ (g O) (g (S O)) d0
+                  | _ -> poly_sym cQ (crs p) d0)
+               | XH ->
+                 sym_dispersion cQ (b O) (crs (firstn d (skipn (S O) p))) d0)
+            | XH -> sym_diffusion cQ (rows p) d0)
+         | XH -> sym_advection cQ (crs (firstn d p)) d0)
+      | _ -> poly_sym cQ (crs p) d0) :: [])
+
+(** val qcs : q list -> car list **)
+
+let qcs l =
+  map (Obj.magic qqc) l
+
+(** val unqcs : car list -> q list **)
+
+let unqcs l =
+  map (Obj.magic qcq) l
+
+(** val run_conv : q list -> q list **)
+
+let run_conv a =
+  let fid = qz (getq a O) in
+  let x = qqc (getq a (S O)) in
+  let y = qqc (getq a (S (S O))) in
+  let z0 = qqc (getq a (S (S (S O)))) in
+  let l2 = qcs (skipn (S (S (S O))) a) in
+  let l3 = qcs (skipn (S (S (S (S O)))) a) in
+  let s2 = qqc (getq a (S (S (S O)))) in
+  let s3 = qqc (getq a (S (S (S (S O))))) in
+  (match fid with
+   | Zpos p ->
+     (match p with
+      | XI p0 ->
+        (match p0 with
+         | XI p1 ->
+           (match p1 with
+            | XI p2 ->
+              (match p2 with
+               | XH ->
+                 unqcs
+                   (reduce_normalized_nonlinear_scales_to_difficulty qcOps
+                     (Obj.magic x) (Obj.magic y) (Obj.magic z0) l3)
+               | _ -> [])
+            | XO p2 ->
+              (match p2 with
+               | XH ->
+                 (qcq
+                   (Obj.magic
+                     reduce_normalized_convection_scale_to_difficulty qcOps x
+                     y z0 s3)) :: []
+               | _ -> [])
+            | XH ->
+              unqcs
+                (normalize_polynomial_scales qcOps (Obj.magic x)
+                  (Obj.magic y) l2))
+         | XO p1 ->
+           (match p1 with
+            | XI p2 ->
+              (match p2 with
+               | XH ->
+                 (qcq
+                   (Obj.magic
+                     reduce_normalized_gradient_norm_scale_to_difficulty
+                     qcOps x y z0 s3)) :: []
+               | _ -> [])
+            | XO p2 ->
+              (match p2 with
+               | XH ->
+                 unqcs
+                   (reduce_normalized_coefficients_to_difficulty qcOps
+                     (Obj.magic x) (Obj.magic y) l2)
+               | _ -> [])
+            | XH ->
+              (qcq (Obj.magic normalize_gradient_norm_scale qcOps x y s2)) :: [])
+         | XH ->
+           (qcq (Obj.magic normalize_convection_scale qcOps x y s2)) :: [])
+      | XO p0 ->
+        (match p0 with
+         | XI p1 ->
+           (match p1 with
+            | XI p2 ->
+              (match p2 with
+               | XH ->
+                 (qcq
+                   (Obj.magic
+                     extract_normalized_gradient_norm_scale_from_difficulty
+                     qcOps x y z0 s3)) :: []
+               | _ -> [])
+            | XO p2 ->
+              (match p2 with
+               | XH ->
+                 unqcs
+                   (extract_normalized_coefficients_from_difficulty qcOps
+                     (Obj.magic x) (Obj.magic y) l2)
+               | _ -> [])
+            | XH ->
+              (qcq (Obj.magic denormalize_gradient_norm_scale qcOps x y s2)) :: [])
+         | XO p1 ->
+           (match p1 with
+            | XI p2 ->
+              (match p2 with
+               | XH ->
+                 (qcq
+                   (Obj.magic
+                     extract_normalized_convection_scale_from_difficulty
+                     qcOps x y z0 s3)) :: []
+               | _ -> [])
+            | XO p2 ->
+              (match p2 with
+               | XI _ -> []
+               | XO p3 ->
+                 (match p3 with
+                  | XH ->
+                    unqcs
+                      (extract_normalized_nonlinear_scales_from_difficulty
+                        qcOps (Obj.magic x) (Obj.magic y) (Obj.magic z0) l3)
+                  | _ -> [])
+               | XH ->
+                 unqcs
+                   (denormalize_polynomial_scales qcOps (Obj.magic x)
+                     (Obj.magic y) l2))
+            | XH ->
+              (qcq (Obj.magic denormalize_convection_scale qcOps x y s2)) :: [])
+         | XH ->
+           unqcs
+             (denormalize_coefficients qcOps (Obj.magic x) (Obj.magic y) l2))
+      | XH ->
+        unqcs (normalize_coefficients qcOps (Obj.magic x) (Obj.magic y) l2))
+   | _ -> [])
+
 (** val run : z -> q list -> q list **)
 
 let run id a =
@@ -1860,6 +2358,21 @@ let run id a =
   (match prop with
    | Zpos p ->
      (match p with
+      | XI p0 ->
+        (match p0 with
+         | XO p1 ->
+           (match p1 with
+            | XI p2 ->
+              (match p2 with
+               | XH ->
+                 (match sub0 with
+                  | Zpos p3 -> (match p3 with
+                                | XH -> run_conv a
+                                | _ -> [])
+                  | _ -> [])
+               | _ -> [])
+            | _ -> [])
+         | _ -> [])
       | XO p0 ->
         (match p0 with
          | XI p1 ->
@@ -1878,5 +2391,10 @@ let run id a =
                | _ -> [])
             | _ -> [])
          | XH -> run_c02 sub0 a)
-      | _ -> [])
+      | XH ->
+        (match sub0 with
+         | Zpos p0 -> (match p0 with
+                       | XH -> run_sym a
+                       | _ -> [])
+         | _ -> []))
    | _ -> [])
